@@ -7,6 +7,8 @@ import (
 	"go/types"
 	"os"
 	"reflect"
+	"regexp"
+	"strings"
 
 	"golang.org/x/tools/go/ssa"
 )
@@ -189,6 +191,46 @@ func EnvStubs(st map[string]StubFn) {
 			cps[i] = c
 		}
 		return runesV{cps, true}.norm()
+	}
+	st[vrtPkg+"Runes"] = func(r *Run, fr *frame, fn *ssa.Function, a []value) value {
+		name := a[0].(string)
+		max := int(asInt64(a[1]))
+		lv := r.newInput(name+".len", SInt)
+		conds := make([]*Term, max+1)
+		for i := range conds {
+			conds[i] = Eq(lv, IntT(int64(i)))
+		}
+		n := r.decide(conds)
+		cps := make([]*Term, n)
+		for i := range cps {
+			c := r.newInput(fmt.Sprintf("%s[%d]", name, i), SInt)
+			r.assume(inSigma(c))
+			cps[i] = c
+		}
+		return runesV{cps, false}.norm()
+	}
+	st[vrtPkg+"RefFoldEq"] = func(r *Run, fr *frame, fn *ssa.Function, a []value) value {
+		if !anySym(a) {
+			return strings.EqualFold(a[0].(string), a[1].(string))
+		}
+		return r.runesEqualFold(a[0], a[1])
+	}
+	st[vrtPkg+"RefRegexpMatch"] = func(r *Run, fr *frame, fn *ssa.Function, a []value) value {
+		expr := a[0].(string)
+		if s, ok := a[1].(string); ok {
+			return regexp.MustCompile(expr).MatchString(s)
+		}
+		v := toRunes(a[1])
+		return simplifyBool(RegexpMembership(expr, v.cps))
+	}
+	st[vrtPkg+"Or"] = func(r *Run, fr *frame, fn *ssa.Function, a []value) value {
+		return simplifyBool(Or(asTerm(a[0]), asTerm(a[1])))
+	}
+	st[vrtPkg+"And"] = func(r *Run, fr *frame, fn *ssa.Function, a []value) value {
+		return simplifyBool(And(asTerm(a[0]), asTerm(a[1])))
+	}
+	st[vrtPkg+"Implies"] = func(r *Run, fr *frame, fn *ssa.Function, a []value) value {
+		return simplifyBool(Implies(asTerm(a[0]), asTerm(a[1])))
 	}
 	st[vrtPkg+"Choose"] = func(r *Run, fr *frame, fn *ssa.Function, a []value) value {
 		// an input-level choice: recorded as a named Int so that models/replays see it
